@@ -57,6 +57,11 @@ func (g *schemaGen) ident(prefix string) string {
 			}
 			if g.cfg.OwnQuote && g.r.Chance(1, 6) {
 				s = s[:len(s)/2] + ownQuote[g.cfg.Dialect] + s[len(s)/2:]
+				if len(s)%2 == 0 {
+					// every other name holds the quote character TWICE (no random draw: the streams of the other
+					// generators stay as they are)
+					s += ownQuote[g.cfg.Dialect]
+				}
 				g.HasOwnQuote = true
 			}
 			if g.cfg.TrailBack && g.r.Chance(1, 8) {
